@@ -20,13 +20,16 @@ RULE = ("Enumeration: every string of length <= 3 (quick) / <= 4 (thorough) over
         "(<=1,<=3),(<=2,<=1) quick / (<=2,<=3),(<=3,<=1) thorough as two adjacent genes (both forward; both reverse "
         "and mixed strands for the short ones), every module template cut in two at every point with six "
         "continuations, directly through combine_modules and (total length <= 3 / <= 4, reverse strand <= 3) through "
-        "generate_domains. "
+        "generate_domains; through generate_domains also every head | tail fragment pair (cut templates, 16 x 19 "
+        "head/tail lists, all pairs of single symbols) with a gene in between that has results but no modules "
+        "(docking/COM domains only, ab-motif hits only, both), on +++ and ---. "
         "Random: Hypothesis strings of length 0-14 over all 60 profile names with KS subtypes (none, the five "
         "ksdomains.hmm names, a nested transATor name, two ambiguous internal hits), start positions increasing "
         "with equal-start ties and shuffled input order as classes; a mixture of uniform strings, strings made of "
         "mutated module templates, and for gene pairs / chains of 2-4 genes a module template cut in two at a random "
         "point (head | tail, optional lone KR after the tail) so that head/tail pairs are mergeable by "
-        "construction. A case is non-trivial when the gene has >= 2 modules or a module with two carrier proteins "
+        "construction; chains optionally get a module-less gene (docking/COM-only or motif-only) between a head gene "
+        "and a tail gene. A case is non-trivial when the gene has >= 2 modules or a module with two carrier proteins "
         "(look-ahead case), or - for pairs - a merge is attempted (same strand, both genes have modules, head "
         "incomplete), or - through generate_domains - a multi-gene module or >= 2 modules result; distinct = sha1 "
         "of the canonical spec (enumerated cases are distinct by construction).")
@@ -336,6 +339,12 @@ def _hmm(dom: dict, index: int):
                      internal_hits=[inner(sub) for sub in dom.get("in") or []])
 
 
+def _motif(hit: dict):
+    """ an ab-motif hit (a gene may have only these: results, but no domains and no modules) """
+    from antismash.common.hmmscan_refinement import HMMResult
+    return HMMResult(hit["id"], hit["s"], hit["e"], 1e-5, 20.0)
+
+
 def _build_gene(gene: dict):
     """ -> (hmm results in spec order, modules) """
     from antismash.detection.nrps_pks_domains.module_identification import build_modules_for_cds
@@ -619,7 +628,7 @@ def _pipeline_layout(genes: list) -> tuple:
     pos = 30
     layout = []
     for gene in genes:
-        protein = max([dom["e"] for dom in gene["doms"]] + [10]) + 5
+        protein = max([dom["e"] for dom in gene["doms"]] + [hit["e"] for hit in gene.get("motifs") or []] + [10]) + 5
         layout.append((pos, pos + 3 * protein, protein))
         pos += 3 * protein + 60
     return layout, pos + 30
@@ -652,11 +661,15 @@ def check_pipeline(spec: dict) -> dict:
         if gene["doms"]:
             hits[gene["name"]] = [_hmm(dom, i) for i, dom in enumerate(gene["doms"])]
             keys.update({id(dom): [index, i] for i, dom in enumerate(hits[gene["name"]])})
+    motifs = {}
+    for gene in genes:
+        if gene.get("motifs"):
+            motifs[gene["name"]] = [_motif(hit) for hit in gene["motifs"]]
     if not hits:
         return {"nontrivial": False, "classes": ["no_domains"]}
     with mock.patch.object(di, "find_domains", lambda fasta, rec: hits), \
             mock.patch.object(di, "find_subtypes", lambda *args, **kwargs: {}), \
-            mock.patch.object(di, "find_ab_motifs", lambda fasta: {}), \
+            mock.patch.object(di, "find_ab_motifs", lambda fasta: motifs), \
             mock.patch.object(di, "get_database_path", lambda *args: "unused"):
         with code_under_test("pipeline_total"):
             results = di.generate_domains(record)
@@ -772,8 +785,24 @@ def check_pipeline(spec: dict) -> dict:
                                                               if rebuilt[0].qualifiers.get(k) != v}})
     classes = [f"genes_{len(genes)}", "multi_gene_module" if multi else "no_multi_gene_module",
                "strands_" + "".join("+" if s == 1 else "-" for s in spec["strands"])]
-    if any(not gene["doms"] for gene in genes):
-        classes.append("gene_without_domains")
+    if any(not gene["doms"] and not gene.get("motifs") for gene in genes):
+        classes.append("gene_without_hits")
+    for index in range(1, len(genes) - 1):
+        # a gene with results of its own but no modules, between two genes that have modules
+        gene = genes[index]
+        silent = (gene["doms"] or gene.get("motifs")) and all(CLASS_OF[d["id"]] == "ignore" for d in gene["doms"])
+        if silent and genes[index - 1]["doms"] and genes[index + 1]["doms"]:
+            classes.append("moduleless_gene_between")
+            if not gene["doms"]:
+                classes.append("motif_only_gene_between")
+            if spec["strands"][index - 1] == spec["strands"][index] == spec["strands"][index + 1]:
+                sign = spec["strands"][index]
+                up, down = (index - 1, index + 1) if sign == 1 else (index + 1, index - 1)
+                up_parts = model_partition(gene_components(genes[up], up))
+                down_parts = model_partition(gene_components(genes[down], down))
+                if up_parts and down_parts and model_merge(up_parts[-1].comps, down_parts[0].comps,
+                                                           len(up_parts) == 1) is not None:
+                    classes.append("mergeable_fragments_across_moduleless_gene")
     if spec.get("kind"):
         classes.append(f"kind_{spec['kind']}")
     return {"nontrivial": multi > 0 or total >= 2, "classes": classes}
@@ -937,7 +966,37 @@ def enum_pipeline(thorough: bool):
                            "strands": [1, 1, 1], "kind": "cut"}
                     yield {"genes": [tokens_gene(("PCP",), "g0"), tokens_gene(down, "g1"), tokens_gene(up, "g2")],
                            "strands": [-1, -1, -1], "kind": "cut"}
+        # a gene with results of its own but no modules (docking/COM domains only, ab-motifs only) between a
+        # head gene and a tail gene: the outer genes are not adjacent
+        fragments = [(tuple(t[:cut]), tuple(t[cut:])) for t in FULL_TEMPLATES for cut in range(1, len(t))]
+        fragments += [(head, tail) for head in HEADS for tail in TAILS]
+        fragments += [((a,), (b,)) for a in PAIR_SYMBOLS for b in PAIR_SYMBOLS]
+        done = set()
+        for up, down in fragments:
+            if (up, down) in done:
+                continue
+            done.add((up, down))
+            for number, middle in enumerate(MIDDLES):
+                if number >= 2 and len(up) + len(down) <= 2:
+                    continue
+                yield {"genes": [tokens_gene(up, "g0"), middle_gene(middle, "g1"), tokens_gene(down, "g2")],
+                       "strands": [1, 1, 1], "kind": "middle"}
+                yield {"genes": [tokens_gene(down, "g0"), middle_gene(middle, "g1"), tokens_gene(up, "g2")],
+                       "strands": [-1, -1, -1], "kind": "middle"}
     return cases
+
+
+MOTIF_NAMES = ("NRPS-A_a3", "NRPS-C_c2", "PKSI-KS_m3", "PKSI-AT-M_m2", "NRPS-te1")
+MIDDLES = ((("COM",), 0), ((), 1), (("DOCK",), 0), (("COM", "DOCK"), 2), (("DOCK",), 1))
+
+
+def middle_gene(middle, name: str) -> dict:
+    """ (docking/COM tokens, number of ab-motif hits) -> a gene that gets results but no modules """
+    tokens, motif_count = middle
+    gene = tokens_gene(tokens, name)
+    if motif_count:
+        gene["motifs"] = [{"id": MOTIF_NAMES[i], "s": 5 + 30 * i, "e": 25 + 30 * i} for i in range(motif_count)]
+    return gene
 
 
 FULL_TEMPLATES = (
@@ -1133,7 +1192,20 @@ def pipeline_specs(draw):
     if draw(st.integers(0, 5)) == 3:
         strands[draw(st.integers(0, count - 1))] = -strand
     up, down, kind = _pair_strings(draw)
-    chain = [up, down]          # in transcription order
+    motifs = {}                 # position in the chain -> ab-motif hits of that gene
+    chain = [up]                # in transcription order
+
+    def middle():
+        """ a gene with results but no modules: only docking/COM domains and/or only ab-motif hits """
+        shape = draw(st.sampled_from([(1, 0), (1, 0), (0, 1), (0, 1), (2, 0), (1, 1), (0, 2)]))
+        if shape[1]:
+            motifs[len(chain)] = [{"id": draw(st.sampled_from(MOTIF_NAMES)), "s": 5 + 30 * i, "e": 25 + 30 * i}
+                                  for i in range(shape[1])]
+        chain.append([{"id": draw(st.sampled_from(NON_MODULE))} for _ in range(shape[0])])
+
+    if count >= 3 and draw(st.integers(0, 3)) == 2:
+        middle()
+    chain.append(down)
     while len(chain) < count:
         roll = draw(st.integers(0, 11))
         if roll == 11:
@@ -1143,12 +1215,20 @@ def pipeline_specs(draw):
         else:
             # continue the chain: the last gene gets a head appended, the new gene starts with a tail
             chain[-1] = chain[-1] + _mutated(draw, draw(st.sampled_from(HEADS)))
+            if len(chain) + 2 <= count and roll in (4, 5, 6):
+                middle()
             chain.append(_mutated(draw, draw(st.sampled_from(TAILS))) + _templated_string(draw, 1))
     if draw(st.integers(0, 15)) == 9:
         chain[draw(st.integers(0, count - 1))] = []
+    genes = []
+    for position, doms in enumerate(chain):
+        index = count - 1 - position if strand == -1 else position
+        gene = _positioned(draw, doms[:12], f"g{index}", allow_disorder=False)
+        if motifs.get(position):
+            gene["motifs"] = motifs[position]
+        genes.append(gene)
     if strand == -1:
-        chain.reverse()
-    genes = [_positioned(draw, doms[:12], f"g{i}", allow_disorder=False) for i, doms in enumerate(chain)]
+        genes.reverse()
     return {"genes": genes, "strands": strands, "kind": kind}
 
 
